@@ -327,36 +327,39 @@ Proof.
   rewrite read_asn1_add by (try tagok; lia). reflexivity.
 Qed.
 
-(* the parser recovers content type, content, certificate and the one signer
-   with its attributes from what SignPKCS7 produced *)
-Theorem parse_sign cert_raw ib serial oid content t sig :
-  x509_ok cert_raw = true -> utctime_ok t = true ->
-  oid_rt oid -> blen (oid_encode oid) < 1000 ->
-  blen cert_raw < 1000000 -> blen ib < 100000 -> blen (int_encode serial) < 1000 ->
-  blen content < 1000000000 -> blen t < 1000 -> blen sig < 100000 ->
-  let embedded := negb (is_nilb content) && negb (oid_eqb oid OID_data) in
-  parse_pkcs7 (sign_pkcs7 cert_raw (add_asn1 T_SEQUENCE ib) serial oid content t sig) =
-  Ret (mkP7 oid (if embedded then der_seq content else []) cert_raw OID_sha256
-         [mkSigner 1 (add_asn1 T_SEQUENCE ib) (Z.of_N serial) OID_sha256
-            (Some (mkAttrs (attrs_body oid (Some t) (sha256 content) []) (Some oid) (sha256 content) (Some t) []))
-            OID_rsa sig]).
+Definition signed_signer (ib : bytes) (serial : N) (oid : list N) (content t sig : bytes) : signer :=
+  mkSigner 1 (add_asn1 T_SEQUENCE ib) (Z.of_N serial) OID_sha256
+    (Some (mkAttrs (attrs_body oid (Some t) (sha256 content) []) (Some oid) (sha256 content) (Some t) []))
+    OID_rsa sig.
+
+Definition signed_p7 (cert_raw ib : bytes) (serial : N) (oid : list N) (content t sig : bytes) : pkcs7 :=
+  mkP7 oid (if negb (is_nilb content) && negb (oid_eqb oid OID_data) then der_seq content else [])
+       cert_raw OID_sha256 [signed_signer ib serial oid content t sig].
+
+Definition sign_side (cert_raw ib : bytes) (serial : N) (oid : list N) (content t sig : bytes) : Prop :=
+  x509_ok cert_raw = true /\ utctime_ok t = true /\ oid_rt oid /\ blen (oid_encode oid) < 1000 /\
+  blen cert_raw < 1000000 /\ blen ib < 100000 /\ blen (int_encode serial) < 1000 /\
+  blen content < 1000000000 /\ blen t < 1000 /\ blen sig < 100000.
+
+Lemma signed_data_size cert_raw ib serial oid content t sig :
+  sign_side cert_raw ib serial oid content t sig ->
+  blen (signed_data cert_raw (add_asn1 T_SEQUENCE ib) serial oid content t sig) < 1300000000.
 Proof.
-  intros Hx Hu Ho Hl Hc Hib Hser Hcont Ht Hsig embedded.
-  unfold sign_pkcs7. fold embedded.
+  intros (Hx & Hu & Ho & Hl & Hc & Hib & Hser & Hcont & Ht & Hsig).
+  unfold signed_data.
   set (body := attrs_body oid (Some t) (sha256 content) []).
+  set (embedded := negb (is_nilb content) && negb (oid_eqb oid OID_data)).
   fold (signer_enc (add_asn1 T_SEQUENCE ib) serial body sig).
   set (se := signer_enc (add_asn1 T_SEQUENCE ib) serial body sig).
   set (inner := der_seq (der_oid oid ++ (if embedded then add_asn1 T_CTX0 (der_seq content) else []))).
-  set (sd := der_int 1 ++ der_set (alg_id OID_sha256) ++ inner ++ add_asn1 T_CTX0 cert_raw ++ der_set se).
   assert (Hd : blen (sha256 content) < 1000) by (unfold blen; rewrite sha256_length; reflexivity).
   pose proof (attrs_body_bounds oid t (sha256 content) Hl Ht Hd) as Bb. fold body in Bb.
-  (* sizes *)
   assert (Bse : blen se < 400000).
   { unfold se, signer_enc, der_seq, der_octets, der_int.
     pose proof (blen_add_asn1 T_SEQUENCE ib). pose proof (blen_add_asn1 T_INTEGER (int_encode serial)).
     pose proof (blen_add_asn1 T_CTX0 body). pose proof (blen_add_asn1 T_OCTETSTRING sig).
-    pose proof (blen_alg_id OID_sha256 ltac:(vm_compute; reflexivity)).
-    pose proof (blen_alg_id OID_rsa ltac:(vm_compute; reflexivity)).
+    pose proof (blen_alg_id OID_sha256 ltac:(reflexivity)).
+    pose proof (blen_alg_id OID_rsa ltac:(reflexivity)).
     pose proof (blen_add_asn1 T_SEQUENCE (add_asn1 T_SEQUENCE ib ++ add_asn1 T_INTEGER (int_encode serial))) as X.
     rewrite blen_app in X.
     match goal with |- blen (add_asn1 T_SEQUENCE ?b) < _ => pose proof (blen_add_asn1 T_SEQUENCE b) as Y end.
@@ -367,30 +370,45 @@ Proof.
     pose proof (blen_add_asn1 T_CTX0 (add_asn1 T_SEQUENCE content)).
     match goal with |- blen (add_asn1 T_SEQUENCE ?b) < _ => pose proof (blen_add_asn1 T_SEQUENCE b) as Y end.
     rewrite blen_app in Y. destruct embedded; rewrite ?blen_nil in Y; lia. }
-  assert (Bsd : blen sd < 1200000000).
-  { unfold sd, der_set. rewrite !blen_app.
-    pose proof (blen_alg_id OID_sha256 ltac:(vm_compute; reflexivity)).
-    pose proof (blen_add_asn1 T_SET (alg_id OID_sha256)). pose proof (blen_add_asn1 T_CTX0 cert_raw).
-    pose proof (blen_add_asn1 T_SET se). assert (blen (der_int 1) = 3) by reflexivity. lia. }
-  pose proof (blen_add_asn1 T_SEQUENCE sd) as Bsd'.
-  pose proof (blen_add_asn1 T_CTX0 (der_seq sd)) as Bc0. unfold der_seq in Bc0.
-  unfold Pkcs7.parse_pkcs7.
-  (* hasContentInfo *)
-  unfold has_content_info. unfold der_seq at 1.
-  rewrite <- (app_nil_r (add_asn1 T_SEQUENCE _)).
-  rewrite read_asn1_add by (try tagok; rewrite blen_app; unfold der_oid;
-    pose proof (blen_add_asn1 T_OID (oid_encode OID_signedData));
-    assert (blen (oid_encode OID_signedData) = 9) by reflexivity; fold sd; unfold der_seq; lia).
-  cbn [E of_option bind]. unfold der_oid at 1. rewrite peek_tag_add by tagok. rewrite N.eqb_refl. cbn iota.
-  (* outer ContentInfo *)
-  rewrite <- (app_nil_r (der_seq (der_oid OID_signedData ++ add_asn1 T_CTX0 (der_seq sd)))).
-  rewrite parse_content_info_present; [|apply oid_rt_consts|reflexivity|unfold der_seq; lia].
-  cbn [bind fst snd]. unfold der_seq at 1. rewrite <- (app_nil_r (add_asn1 T_SEQUENCE sd)).
+  unfold der_seq at 1.
+  match goal with |- blen (add_asn1 T_SEQUENCE ?b) < _ => pose proof (blen_add_asn1 T_SEQUENCE b) as Y end.
+  unfold der_set in *. rewrite !blen_app in Y.
+  pose proof (blen_alg_id OID_sha256 ltac:(reflexivity)).
+  pose proof (blen_add_asn1 T_SET (alg_id OID_sha256)). pose proof (blen_add_asn1 T_CTX0 cert_raw).
+  pose proof (blen_add_asn1 T_SET se). assert (blen (der_int 1) = 3) by reflexivity. lia.
+Qed.
+
+(* the parser, entered at the SignedData, recovers content type, content,
+   certificate and the one signer with its attributes *)
+Theorem parse_signed_data_sign cert_raw ib serial oid content t sig :
+  sign_side cert_raw ib serial oid content t sig ->
+  parse_signed_data utctime_ok x509_ok (signed_data cert_raw (add_asn1 T_SEQUENCE ib) serial oid content t sig) =
+  Ret (signed_p7 cert_raw ib serial oid content t sig).
+Proof.
+  intros Hside. pose proof (signed_data_size _ _ _ _ _ _ _ Hside) as Bsd0.
+  destruct Hside as (Hx & Hu & Ho & Hl & Hc & Hib & Hser & Hcont & Ht & Hsig).
+  unfold signed_data, signed_p7 in *.
+  set (embedded := negb (is_nilb content) && negb (oid_eqb oid OID_data)) in *.
+  set (body := attrs_body oid (Some t) (sha256 content) []) in *.
+  fold (signer_enc (add_asn1 T_SEQUENCE ib) serial body sig) in *.
+  set (se := signer_enc (add_asn1 T_SEQUENCE ib) serial body sig) in *.
+  set (inner := der_seq (der_oid oid ++ (if embedded then add_asn1 T_CTX0 (der_seq content) else []))) in *.
+  set (sd := der_int 1 ++ der_set (alg_id OID_sha256) ++ inner ++ add_asn1 T_CTX0 cert_raw ++ der_set se) in *.
+  assert (Hd : blen (sha256 content) < 1000) by (unfold blen; rewrite sha256_length; reflexivity).
+  pose proof (blen_add_asn1 T_SEQUENCE sd) as Bsd'. unfold der_seq in Bsd0.
+  assert (Bparts : blen (alg_id OID_sha256) < 1020 /\ blen cert_raw < 1000000 /\ blen se < 1300000000).
+  { split; [apply blen_alg_id; reflexivity|]. split; [exact Hc|].
+    assert (Bsd1 : blen sd < 1300000000) by lia.
+    unfold sd, der_set in Bsd1. rewrite !blen_app in Bsd1. pose proof (blen_add_asn1 T_SET se). lia. }
+  assert (Bsd2 : blen sd < 1300000000) by lia.
+  destruct Bparts as (Balg & _ & Bse).
+  unfold Pkcs7.parse_signed_data.
+  unfold der_seq at 1. rewrite <- (app_nil_r (add_asn1 T_SEQUENCE sd)).
   rewrite read_asn1_add by (try tagok; lia). cbn [E of_option bind].
   unfold sd at 1. rewrite read_int64_one. cbn [E of_option bind].
-  unfold der_set at 1. rewrite read_asn1_add by (try tagok; pose proof (blen_alg_id OID_sha256 ltac:(vm_compute; reflexivity)); lia).
+  unfold der_set at 1. rewrite read_asn1_add by (try tagok; lia).
   cbn [E of_option bind]. rewrite <- (app_nil_r (alg_id OID_sha256)).
-  rewrite parse_alg_id_enc by (first [apply oid_rt_consts | vm_compute; reflexivity]). cbn [bind].
+  rewrite parse_alg_id_enc by (first [apply oid_rt_consts | reflexivity]). cbn [bind].
   unfold inner.
   assert (Hci : parse_content_info (der_seq (der_oid oid ++ (if embedded then add_asn1 T_CTX0 (der_seq content) else [])) ++
                                     add_asn1 T_CTX0 cert_raw ++ add_asn1 T_SET se) =
@@ -400,7 +418,7 @@ Proof.
     - apply parse_content_info_absent; assumption. }
   unfold der_set at 1. rewrite Hci. cbn [bind]. unfold read_optional. rewrite peek_tag_add by tagok. rewrite N.eqb_refl.
   rewrite read_asn1_add by (try tagok; lia). cbn [E of_option bind]. rewrite Hx. cbn [negb].
-  unfold der_set. rewrite <- (app_nil_r (add_asn1 T_SET se)). rewrite read_asn1_add by (try tagok; lia).
+  rewrite <- (app_nil_r (add_asn1 T_SET se)). rewrite read_asn1_add by (try tagok; lia).
   cbn [E of_option bind].
   assert (Hlen : exists k, length se = S k).
   { assert (Hse : se = n2b T_SEQUENCE :: tl se) by reflexivity. rewrite Hse. eexists. reflexivity. }
@@ -410,16 +428,54 @@ Proof.
   rewrite parse_signer_sign by assumption. cbn [bind].
   destruct k; reflexivity.
 Qed.
+
+Lemma signed_data_starts_with_integer cert_raw issuer_raw serial oid content t sig :
+  exists rest, signed_data cert_raw issuer_raw serial oid content t sig =
+               add_asn1 T_SEQUENCE (der_int 1 ++ rest).
+Proof. unfold signed_data, der_seq. eexists. reflexivity. Qed.
+
+(* a bare SignedData (no outer ContentInfo), as embedded in authentication descriptors *)
+Theorem parse_bare cert_raw ib serial oid content t sig :
+  sign_side cert_raw ib serial oid content t sig ->
+  parse_pkcs7 (signed_data cert_raw (add_asn1 T_SEQUENCE ib) serial oid content t sig) =
+  Ret (signed_p7 cert_raw ib serial oid content t sig).
+Proof.
+  intros Hside. unfold Pkcs7.parse_pkcs7.
+  pose proof (signed_data_size _ _ _ _ _ _ _ Hside) as B.
+  destruct (signed_data_starts_with_integer cert_raw (add_asn1 T_SEQUENCE ib) serial oid content t sig) as [rest E].
+  assert (Hh : has_content_info (signed_data cert_raw (add_asn1 T_SEQUENCE ib) serial oid content t sig) = Ret false).
+  { unfold has_content_info. rewrite E in *. rewrite <- (app_nil_r (add_asn1 T_SEQUENCE _)).
+    pose proof (blen_add_asn1 T_SEQUENCE (der_int 1 ++ rest)).
+    rewrite read_asn1_add by (try tagok; lia). reflexivity. }
+  rewrite Hh. cbn [bind]. apply parse_signed_data_sign. exact Hside.
+Qed.
+
+(* SignPKCS7's output: the same, wrapped in a ContentInfo *)
+Theorem parse_sign cert_raw ib serial oid content t sig :
+  sign_side cert_raw ib serial oid content t sig ->
+  parse_pkcs7 (sign_pkcs7 cert_raw (add_asn1 T_SEQUENCE ib) serial oid content t sig) =
+  Ret (signed_p7 cert_raw ib serial oid content t sig).
+Proof.
+  intros Hside. unfold Pkcs7.parse_pkcs7, sign_pkcs7.
+  pose proof (signed_data_size _ _ _ _ _ _ _ Hside) as B.
+  set (sdd := signed_data cert_raw (add_asn1 T_SEQUENCE ib) serial oid content t sig) in *.
+  pose proof (blen_add_asn1 T_CTX0 sdd) as B0.
+  assert (B9 : blen (oid_encode OID_signedData) = 9) by reflexivity.
+  pose proof (blen_add_asn1 T_OID (oid_encode OID_signedData)) as B1.
+  unfold has_content_info. unfold der_seq at 1.
+  rewrite <- (app_nil_r (add_asn1 T_SEQUENCE _)).
+  rewrite read_asn1_add by (try tagok; rewrite blen_app; unfold der_oid; lia).
+  cbn [E of_option bind]. unfold der_oid at 1. rewrite peek_tag_add by tagok. rewrite N.eqb_refl. cbn iota.
+  fold (der_oid OID_signedData).
+  rewrite <- (app_nil_r (der_seq (der_oid OID_signedData ++ add_asn1 T_CTX0 sdd))).
+  rewrite parse_content_info_present; [|apply oid_rt_consts|reflexivity|lia].
+  cbn [bind fst snd]. apply parse_signed_data_sign. exact Hside.
+Qed.
 End Sign.
 
 (* ---------- the produced blob verifies, and only for its content ---------- *)
 Section Verify.
 Variable rsa_ok : N -> bytes -> bytes -> bool.
-
-Definition signed_signer (ib : bytes) (serial : N) (oid : list N) (content t sig : bytes) : signer :=
-  mkSigner 1 (add_asn1 T_SEQUENCE ib) (Z.of_N serial) OID_sha256
-    (Some (mkAttrs (attrs_body oid (Some t) (sha256 content) []) (Some oid) (sha256 content) (Some t) []))
-    OID_rsa sig.
 
 Lemma der_read_seq content : blen content < 4294967290 ->
   der_read (der_seq content) = Some (mkElem T_SEQUENCE content (der_seq content) []).
